@@ -590,7 +590,8 @@ class ExcFlow:
                 add('ValueError', 'chr', n, f'argument interval {list(iv)} (by {why})' if ok else (
                     f'UNDECIDED: argument interval {iv} ({why})' if unknown else None)).text += '' if ok else f'  [argument interval {iv} ({why})]'
             elif cn.split('.')[-1] in ('datetime', 'date') and cn.split('.')[0] in self.dt_names(mod) and n.args:
-                iv = miniev.interval(n.args[0], {}, ev_const)
+                penv = miniev.param_intervals(self.ctx.src, mod, fn, lambda mn_: (lambda e_: folder.try_ev(mn_, e_, default=None)))
+                iv = miniev.interval(n.args[0], penv, ev_const)
                 consts = [ev_const(a) for a in n.args[1:3]]
                 ok = iv is not None and iv[0] >= 1 and iv[1] <= 9999 and all(isinstance(c, int) for c in consts) \
                     and len(consts) == 2 and 1 <= consts[0] <= 12 and 1 <= consts[1] <= (28 if consts[0] == 2 else 30 if consts[0] in (4, 6, 9, 11) else 31)
@@ -639,6 +640,16 @@ class ExcFlow:
                         continue
                     if isinstance(a, ast.Name) and self._guarded_nonnegative(mod, fn, n, a.id):
                         continue
+                    if isinstance(a, ast.IfExp):
+                        # `x if 0 < x else None`: each arm is a bound on its own - None / a non-negative constant, or the name the
+                        # test has just shown positive
+                        def arm_ok(arm, negate, _t=a.test):
+                            v_ = ev_const(arm)
+                            if (isinstance(arm, ast.Constant) and arm.value is None) or (isinstance(v_, int) and v_ >= 0):
+                                return True
+                            return isinstance(arm, ast.Name) and self._test_shows_nonnegative(mod, _t, arm.id, negate)
+                        if arm_ok(a.body, False) and arm_ok(a.orelse, True):
+                            continue
                     undecided.append(unparse(a))
                 add('ValueError', 'stdlib', n, None if undecided else 'bounds are None, non-negative constants or tested non-negative').text += (
                     f'  [itertools.islice: a negative {undecided[0]} raises]' if undecided else '')
@@ -987,10 +998,45 @@ class ExcFlow:
                 return f'{a[1]}.{a[2]}'
         return None
 
+    def _test_shows_nonnegative(self, mod, test, name, negate):
+        """Does `test` being true (false when negate) show name >= 0?  Chained comparisons `0 < x <= N` are split."""
+        def positive(t, negate):
+            if isinstance(t, ast.Compare) and len(t.ops) > 1:
+                parts, left = [], t.left
+                for op, right in zip(t.ops, t.comparators):
+                    parts.append(ast.Compare(left=left, ops=[op], comparators=[right]))
+                    left = right
+                if not negate:
+                    return any(positive(p_, False) for p_ in parts)
+                return False
+            if isinstance(t, ast.BoolOp) and isinstance(t.op, ast.And) and not negate:
+                return any(positive(v, False) for v in t.values)
+            if isinstance(t, ast.BoolOp) and isinstance(t.op, ast.Or) and negate:
+                return any(positive(v, True) for v in t.values)
+            if isinstance(t, ast.UnaryOp) and isinstance(t.op, ast.Not):
+                return positive(t.operand, not negate)
+            if isinstance(t, ast.Compare) and len(t.ops) == 1:
+                l, op, r = t.left, t.ops[0], t.comparators[0]
+                c = self.inv.folder.try_ev(mod.name, r, default=None)
+                if isinstance(l, ast.Name) and l.id == name and isinstance(c, int):
+                    if not negate:
+                        return (isinstance(op, ast.Gt) and c >= -1) or (isinstance(op, ast.GtE) and c >= 0)
+                    return (isinstance(op, ast.Lt) and c >= 0) or (isinstance(op, ast.LtE) and c >= -1)
+                c = self.inv.folder.try_ev(mod.name, l, default=None)
+                if isinstance(r, ast.Name) and r.id == name and isinstance(c, int):
+                    if not negate:
+                        return (isinstance(op, ast.Lt) and c >= -1) or (isinstance(op, ast.LtE) and c >= 0)
+                    return (isinstance(op, ast.Gt) and c >= 0) or (isinstance(op, ast.GtE) and c >= -1)
+            return False
+        return positive(test, negate)
+
     def _guarded_nonnegative(self, mod, fn, site, name):
         """Is `site` only reached when `name` was tested positive / non-negative (enclosing if / conditional expression), with no
         assignment to it in between?"""
         def positive(t, negate):
+            return self._test_shows_nonnegative(mod, t, name, negate)
+
+        def _unused(t, negate):
             if isinstance(t, ast.BoolOp) and isinstance(t.op, ast.And) and not negate:
                 return any(positive(v, False) for v in t.values)
             if isinstance(t, ast.BoolOp) and isinstance(t.op, ast.Or) and negate:
